@@ -162,13 +162,14 @@ class XPathMap(XPathFunction):
     def evaluate(self, context: ta.ContextType = None) -> 'XPathMap':
         if self._map is not None:
             return self
-        return XPathMap(
-            parser=self.parser,
-            items=(
-                (k.get_atomized_operand(context), v.evaluate(context))
-                for k, v in zip(self._items, self._values)
-            )
+        items: Any = (
+            (k.get_atomized_operand(context), v.evaluate(context))
+            for k, v in zip(self._items, self._values)
         )
+        if isinstance(context, XPathSchemaContext):
+            # static evaluation: a key expression may select nothing in the schema
+            items = [(k, v) for k, v in items if k is not None]
+        return XPathMap(parser=self.parser, items=items)
 
     def _evaluate(self, context: ta.ContextType = None) -> ta.MapDictType:
         _map: ta.MapDictType = {}
